@@ -46,6 +46,7 @@ type sortedSetUnderTest struct {
 	onSet      func(cb func())
 	onWeight   func(e int, cb func())
 	has        func(e int) bool
+	add        func(e int) bool // Add of one element with its return value (fresh.go)
 }
 
 func newSSUT[E ~int](tb bool) *sortedSetUnderTest {
@@ -97,6 +98,7 @@ func newSSUT[E ~int](tb bool) *sortedSetUnderTest {
 		onSet:      func(cb func()) { s.OnUpdate(func(ds.SetMutations[E]) { cb() }) },
 		onWeight:   func(e int, cb func()) { weights[e].OnUpdate(func(_, _ int) { cb() }) },
 		has:        func(e int) bool { return s.Has(E(e)) },
+		add:        func(e int) bool { return s.Add(E(e)) },
 	}
 }
 
